@@ -142,7 +142,7 @@ def ctx_parent(f, node):
 
 
 _add("C16", no_process_wide_instances, "C16.33")
-_add("C07", no_process_wide_instances, "C07.11")
+_add("C07", no_process_wide_instances, "C07.12")
 
 
 # ---------------------------------------------------------------- C04 / C03: one binding per macro call
@@ -502,3 +502,7 @@ def rollback_flag_not_stale(ctx, rep, rule):
 
 
 _add("C16", rollback_flag_not_stale, "C16.35")
+
+from .common import check_memo_numeric_keys  # noqa: E402
+
+_add("C18", check_memo_numeric_keys, "C18.20")   # a memo hit must not stand in for the validation of another call (hunt wave 8)
